@@ -1200,7 +1200,7 @@ Proof.
   eexists. split; [vm_compute; reflexivity|]. split; [repeat constructor|].
   repeat split.
   - intros p. destruct p as [|p]; reflexivity.
-  - intros l Hl. destruct l as [s|s|s|s|s|s|s|s|s|s|s|s|s|s|s|s|p|p|p|p|p|p ok|p c|p|p|p|p]; simpl in Hl; try discriminate;
+  - intros l Hl. destruct l as [s|s|s|s|s|s|s|s|s|s|s|s|s|s|s|s|s|p|p|p|p|p|p ok|p c|p|p|p|p]; simpl in Hl; try discriminate;
     try (destruct s as [|s]; reflexivity); try (destruct p as [|p]; reflexivity).
 Qed.
 (* the same run with the repaired aio_process goes on: the marker is found *)
